@@ -125,11 +125,33 @@ LitUndef(T, d, s) ==
   /\ \E i \in LitIdx(T) : PyEq(T.v[i], d.a) /\ ~(s /\ BoolIntMix(T.v[i], d.a))
   /\ s
 
+(* ------------------------------ user supplied loaders ------------------------------- *)
+\* [k |-> "user", v |-> <<f>>]: a type served by the recipe  loader(T, f)  with f a plain CPython constructor (the common
+\* `loader(T, int)`): accepted data give f(datum); for every other datum the USER code raises an exception that is not a
+\* LoadError.  "A plain ExceptionGroup or a bare non-LoadError may escape only when user-supplied code raised a
+\* non-LoadError itself" - and then loading fails in every debug mode (Unexp below), whatever else is wrong with the datum.
+UserAcc(T, d) == IF IsAtom(d) /\ d.a \in CtorAccepts[T.v[1]] THEN {Conv(T.v[1], d.a)} ELSE {}
+
 (* ------------------------------ the loader relation --------------------------------- *)
-RECURSIVE Acc(_, _, _), Undef(_, _, _), Errs(_, _, _)
+RECURSIVE Acc(_, _, _), Undef(_, _, _), Errs(_, _, _), Unexp(_, _, _)
+
+\* the datum reaches user code that raises a non-LoadError: the call fails, in every mode
+Unexp(T, d, s) ==
+  CASE T.k = "user" -> UserAcc(T, d) = {}
+    [] T.k \in ScalarKinds \cup {"literal"} -> FALSE
+    [] T.k \in IterKinds -> IterOk(d, s) /\ \E i \in 1..Len(Items(d)) : Unexp(T.a[1], Items(d)[i], s)
+    [] T.k = "tuple_fix" -> IterOk(d, s) /\ Len(Items(d)) = Len(T.a) /\ \E i \in 1..Len(T.a) : Unexp(T.a[i], Items(d)[i], s)
+    [] T.k \in DictKinds -> d.c \in MapKinds /\ \E i \in 1..Len(d.ks) : Unexp(T.a[1], d.ks[i], s) \/ Unexp(T.a[2], d.vs[i], s)
+    \* an unexpected exception is not swallowed, so the cases behind it are never reached; the cases are tried in the order of
+    \* the NORMALISED union (type_tools/normalize_type.py sorts them by the text of their origin), which the documentation
+    \* does not promise - so the outcome is decided only when no case accepts (then every mode fails) and is left open
+    \* (Undef) when one case accepts and another one raises
+    [] T.k = "union" -> (\E i \in 1..Len(T.a) : Unexp(T.a[i], d, s)) /\ (\A j \in 1..Len(T.a) : Acc(T.a[j], d, s) = {})
+    [] T.k \in {"newtype", "annotated"} -> Unexp(T.a[1], d, s)
 
 Acc(T, d, s) ==
   CASE T.k \in ScalarKinds -> ScalarAcc(T.k, d, s)
+    [] T.k = "user" -> UserAcc(T, d)
     [] T.k \in IterKinds ->
          IF ~IterOk(d, s) THEN {}
          ELSE LET xs == Items(d) IN
@@ -144,12 +166,15 @@ Acc(T, d, s) ==
          ELSE LET xs == Items(d) IN
               IF Len(xs) # Len(T.a) THEN {}
               ELSE {[c |-> "tuple", xs |-> r] : r \in SeqProd([i \in 1..Len(xs) |-> Acc(T.a[i], xs[i], s)])}
-    [] T.k = "union" -> UNION {Acc(T.a[i], d, s) : i \in 1..Len(T.a)}     \* "a value of the first loader that does not raise"; overlap undefined
+    \* "a value of the first loader that does not raise"; overlap undefined
+    [] T.k = "union" -> IF \E i \in 1..Len(T.a) : Unexp(T.a[i], d, s) /\ \A j \in 1..Len(T.a) : Acc(T.a[j], d, s) = {} THEN {}
+                        ELSE UNION {Acc(T.a[i], d, s) : i \in 1..Len(T.a)}
     [] T.k = "literal" -> LitAcc(T, d, s)
     [] T.k \in {"newtype", "annotated"} -> Acc(T.a[1], d, s)              \* treated as origin / wrapped type
 
 Undef(T, d, s) ==
   CASE T.k \in ScalarKinds -> ScalarUndef(T.k, d, s)
+    [] T.k = "user" -> FALSE
     [] T.k \in IterKinds \cup {"tuple_fix"} ->
          \/ IterUndef(d, s)
          \* which element of an unordered datum meets which position of a constant-length tuple is not defined
@@ -164,7 +189,8 @@ Undef(T, d, s) ==
             \* two input keys that may load to equal keys collide: which value survives is not documented
             \/ \E i, j \in 1..Len(d.ks) : i < j /\ Acc(T.a[1], d.ks[i], s) # {} /\ Acc(T.a[1], d.ks[j], s) # {}
                                              /\ ~(Acc(T.a[1], d.ks[i], s) = {d.ks[i]} /\ Acc(T.a[1], d.ks[j], s) = {d.ks[j]})
-    [] T.k = "union" -> \E i \in 1..Len(T.a) : Undef(T.a[i], d, s)
+    [] T.k = "union" -> \/ \E i \in 1..Len(T.a) : Undef(T.a[i], d, s)
+                        \/ (\E i \in 1..Len(T.a) : Unexp(T.a[i], d, s)) /\ (\E j \in 1..Len(T.a) : Acc(T.a[j], d, s) # {})
     [] T.k = "literal" -> LitUndef(T, d, s)
     [] T.k \in {"newtype", "annotated"} -> Undef(T.a[1], d, s)
 
@@ -174,7 +200,7 @@ Rebase(step, ps) == {<<step>> \o p : p \in ps}
 Here == {<<>>}
 
 Errs(T, d, s) ==
-  IF Acc(T, d, s) # {} THEN {}
+  IF Acc(T, d, s) # {} \/ Unexp(T, d, s) THEN {}
   ELSE CASE T.k \in IterKinds /\ IterOk(d, s) ->
               UNION {Rebase([s |-> "idx", i |-> i], Errs(T.a[1], Items(d)[i], s)) : i \in 1..Len(Items(d))}
          [] T.k = "tuple_fix" /\ IterOk(d, s) /\ Len(Items(d)) = Len(T.a) ->
@@ -185,11 +211,12 @@ Errs(T, d, s) ==
          [] T.k \in {"newtype", "annotated"} -> Errs(T.a[1], d, s)
          [] OTHER -> Here          \* the node itself is the offending sub-value (wrong kind, bad scalar, no union case, bad length)
 
-Outcome(T, d, s) == [acc |-> Acc(T, d, s), errs |-> Errs(T, d, s), undef |-> Undef(T, d, s)]
+Outcome(T, d, s) == [acc |-> Acc(T, d, s), errs |-> Errs(T, d, s), undef |-> Undef(T, d, s), unexp |-> Unexp(T, d, s)]
 
 (* ------------------------------ properties of the rule set (checked by MC_Load) ------ *)
 \* the rules leave no datum unclassified and never both accept and blame
-Total(T, d, s) == (Acc(T, d, s) = {}) <=> (Errs(T, d, s) # {})
+Total(T, d, s) == /\ (Acc(T, d, s) = {} /\ ~Unexp(T, d, s)) <=> (Errs(T, d, s) # {})
+                  /\ Unexp(T, d, s) => Acc(T, d, s) = {}
 
 \* does laxness make the cases of some union inside T overlap on d?  (then "any accepting case may win")
 RECURSIVE HasUnion(_)
